@@ -76,6 +76,22 @@ def run(pid, tier, replay=None):
     if missing and r.returncode == 0:
         raise Broken("vacuity: cases never exercised by the model: %s" % missing)
 
+    # 3b. the same transitions on the second node layout (separate parent / tag fields, selected by A_SIZE_POINTER on small targets)
+    exe_s = vlib.cc_build(sc.path("tree_split_" + c["kind"]), [os.path.join(vlib.HARNESS, "tree_h.c")] + vlib.repo_src(c["src"]),
+                          sc, defs=tuple(c["defs"]) + ("SPLIT_LAYOUT", "A_SIZE_POINTER=1"))
+    rs = vlib.run_harness([exe_s, "edges", edges_file, sc.path("s"), str(nb)], timeout=3000)
+    summ_s = parse_summary(rs)
+    if rs.returncode != 0 or summ_s is None:
+        handle_crash(ck, rs, "edge-replay-split-layout")
+    report_mismatches(ck, rs, "split-layout:")
+    if summ_s:
+        ck.cov["evaluations"] += summ_s["edges"]
+        ck.cov["spec_drift"] += summ_s["drift"]
+        ck.part("edge_replay_split_layout", edges=summ_s["edges"], native_mismatches=summ_s["mismatch"], spec_drift=summ_s["drift"],
+                build="-DA_SIZE_POINTER=1: parent pointer and balance factor / colour in separate fields")
+        if res.generated - 1 != summ_s["edges"] and rs.returncode == 0:
+            raise Broken("split layout: emitted %d transitions but replayed %d" % (res.generated - 1, summ_s["edges"]))
+
     # 4. long random histories on the real code (beyond the exhaustive universe)
     nh, nk, no = (12, 40, 300) if tier == "quick" else (96, 60, 800)
     r2 = vlib.run_harness([exe, "random", str(ck.seed), str(nh), str(nk), str(no), sc.path("r"), str(nb)], timeout=1200)
@@ -88,7 +104,15 @@ def run(pid, tier, replay=None):
         ck.part("random_histories", histories=nh, keys=nk, ops_each=no, native_mismatches=summ2["mismatch"])
 
     # 5. V: TLC validates everything the real code produced
-    files = sorted(glob.glob(sc.path("g-*.ndjson")) + glob.glob(sc.path("r-*.ndjson")))
+    r3 = vlib.run_harness([exe_s, "random", str(ck.seed + 1), str(nh), str(nk), str(no), sc.path("q"), str(nb)], timeout=1200)
+    summ3 = parse_summary(r3)
+    if r3.returncode != 0 or summ3 is None:
+        handle_crash(ck, r3, "random-history-split-layout")
+    report_mismatches(ck, r3, "split-layout:")
+    if summ3:
+        ck.cov["evaluations"] += summ3["edges"]
+        ck.part("random_histories_split_layout", histories=nh, keys=nk, ops_each=no, native_mismatches=summ3["mismatch"])
+    files = sorted(glob.glob(sc.path("g-*.ndjson")) + glob.glob(sc.path("r-*.ndjson")) + glob.glob(sc.path("s-*.ndjson")) + glob.glob(sc.path("q-*.ndjson")))
     files = vlib.drop_partial_lines(files)
     nev, bad = vlib.validate_collect(os.path.join(specdir, mod + "Trace.tla"), os.path.join(specdir, mod + "Trace.cfg"), files, sc)
     for f, idx, ev in bad:
@@ -114,10 +138,10 @@ def parse_summary(r):
     return json.loads(m.group(1)) if m else None
 
 
-def report_mismatches(ck, r):
+def report_mismatches(ck, r, prefix=""):
     for m in re.finditer(r"^MISMATCH (\{.*\})$", r.stdout or "", re.M):
         d = json.loads(m.group(1))
-        key = "replay:%s:%s" % ({1: "insert", 2: "remove", 3: "search"}.get(d["op"], "?"), d["what"])
+        key = "replay:%s%s:%s" % (prefix, {1: "insert", 2: "remove", 3: "search"}.get(d["op"], "?"), d["what"])
         ck.violation(key, d)
 
 
